@@ -623,3 +623,17 @@ Example ex_unfair_winner_stays_runnable :
    Some (0, [0]%nat, [(5, false, true, 1%nat); (1, true, false, 1%nat)],
          false, [Runnable; Runnable; Runnable; Runnable], 0, 0)).
 Proof. vm_compute. reflexivity. Qed.
+
+(* KNOWN FINDING F35 (confirmed on the Rust code, see known_findings.json): the last clause of the property, "the task
+   released is always the one currently awaiting", has a counterpart for blocking that the code does not meet.
+   reblock_if_unfair marks the task of every queued waiter that no longer fits Blocked, taking for granted that this task
+   is suspended on that waiter.  Task 1 creates an Acquire of 5 permits and polls it once by hand (with its own waker, as
+   futures::poll! does): Pending, queued.  It goes on with other work and is Runnable at its next scheduling point (E 2:
+   task 2 runs, all tasks Runnable).  Task 2's try_acquire(1) succeeds and blocks task 1, which waits for nothing:
+     Rust: 'sp1;qn(5);qp;yd;...|st(1)' under the schedule t0,t0,t1,t1 panics with "deadlock! blocked tasks: [main-thread]". *)
+Example C18_reblock_blocks_a_task_that_is_not_waiting_REFUTED :
+  let st0 := init_state (E 1) (sem_new 1 false [0;0;0;0]) in
+  option_map obs (run st0 [OpNewWaiter 5; OpPoll 0 1; OpEnv (E 2); OpTryAcquire 1]) =
+  Some (0, [0]%nat, [(5, false, true, 1%nat)], false, [Runnable; Blocked false; Runnable; Runnable], 1, 0).
+Proof. vm_compute. reflexivity. Qed.
+Print Assumptions C18_reblock_blocks_a_task_that_is_not_waiting_REFUTED.
